@@ -251,7 +251,11 @@ def rndI (c : Cfg) : Number → R
       -- NaN/inf fail both range tests and reach `classify_float(f)?`
       if f.isNaN then .error .undefined
       else if f.isInf then .error .floatOverflow
-      else .ok (.int (rndIFloat c (floorZ f)))
+      else
+        -- `build_with_unchecked` carries `debug_assert!(RANGE.contains(&num))`
+        match rndIFloat c (floorZ f) with
+        | .fix v => if Arith.inFix v then .ok (.int (.fix v)) else .error .panic
+        | .big v => .ok (.int (.big v))
   | .rat n d => .ok (.int (ofIntChecked (Int.fdiv n d)))
 
 /-- `floor`: `rnd_i(..).unwrap_or_else(|_| todo!())`. -/
